@@ -111,22 +111,24 @@ type diffOpts struct {
 	Lockstep    bool
 	Repeats     int // run each config this many times and require identical observations
 	StopAtFirst bool
+	TermOnly    bool // C07: only termination verdicts (panic, budget, error, cycle bound)
 }
 
 type diffOut struct {
-	Discarded  bool
-	RefErr     string
-	RefSteps   int
-	Runs       int
-	Findings   []finding
-	Stats      map[string]int64
-	Nontrivial bool
-	MaxRatio   float64
-	Triggers   []string
+	Discarded    bool
+	RefErr       string
+	RefSteps     int
+	Runs         int
+	Findings     []finding
+	Stats        map[string]int64
+	Nontrivial   bool
+	MaxRatio     float64
+	MaxTickRatio float64
+	Triggers     []string
 }
 
 func budgetFor(steps, plen int) int64 {
-	return int64(24) * latMem * int64(steps+plen+64)
+	return int64(8) * latMem * int64(steps+plen+64)
 }
 
 // refNontrivial: executes >= 5 instructions and has a taken branch, a memory
@@ -264,10 +266,10 @@ func diffCase(in caseInput, cfgs []config, o diffOpts) diffOut {
 				add(finding{Config: c, Class: "parse-error", Detail: obs.Err})
 				continue
 			case "panic":
-				add(finding{Config: c, Class: "panic", Site: obs.Frame, Detail: obs.Panic + " at " + obs.Frame})
+				add(finding{Config: c, Class: "panic", Site: frameFunc(obs.Frame), Detail: obs.Panic + " at " + obs.Frame})
 				continue
 			case "budget":
-				add(finding{Config: c, Class: "budget", Site: fmt.Sprintf("tick-site-%d", obs.Site), Detail: fmt.Sprintf("tick budget %d exhausted at loop site %d (reference executed %d instructions)", budget, obs.Site, ref.Steps)})
+				add(finding{Config: c, Class: "budget", Site: tickSiteName(obs.Site), Detail: fmt.Sprintf("tick budget %d exhausted in the %s (tick site %d; reference executed %d instructions)", budget, tickSiteName(obs.Site), obs.Site, ref.Steps)})
 				continue
 			}
 			if o.ExpectErr {
@@ -286,13 +288,21 @@ func diffCase(in caseInput, cfgs []config, o diffOpts) diffOut {
 			if ratio > out.MaxRatio {
 				out.MaxRatio = ratio
 			}
+			if tr := float64(obs.Ticks) / float64(bound); tr > out.MaxTickRatio {
+				out.MaxTickRatio = tr
+			}
 			if int64(obs.Cycles) > 8*bound || obs.Cycles <= 0 {
 				add(finding{Config: c, Class: "cycle-bound", Detail: fmt.Sprintf("returned cycles %d outside (0, %d]", obs.Cycles, 8*bound)})
 			}
+			if o.TermOnly {
+				continue
+			}
 			fd := finalDiff(ref, &obs)
+			var wrongPath map[int][]int32
 			if o.Lockstep {
 				ls := lockstep(c, p, ref, &obs)
 				accStats(out.Stats, c, ls.Stats)
+				wrongPath = squashedRegVals(ls.Dyn, &obs)
 				if !ls.OK {
 					add(finding{Config: c, Class: ls.Class, Sub: ls.Sub, Detail: ls.Detail, Step: ls.Step, Final: fd != "", Extra: fd})
 					if fd == "" {
@@ -302,7 +312,7 @@ func diffCase(in caseInput, cfgs []config, o diffOpts) diffOut {
 				}
 			}
 			if fd != "" {
-				add(finding{Config: c, Class: "final-state", Sub: explainFinal(p, ref, &obs), Detail: fd, Final: true, Step: -1})
+				add(finding{Config: c, Class: "final-state", Sub: explainFinal(p, ref, &obs, wrongPath), Detail: fd, Final: true, Step: -1})
 			}
 		}
 	}
@@ -334,7 +344,8 @@ func sortedKeys(m map[string]int64) []string {
 // explainFinal classifies a final-state mismatch: "stale-final" when every
 // wrong register / byte holds a value it had earlier in the reference run (an
 // update was lost or overwritten by an older one), otherwise "unexplained-final".
-func explainFinal(p rProg, ref *refState, o *observation) string {
+func explainFinal(p rProg, ref *refState, o *observation, wrongPath map[int][]int32) string {
+	wp := false
 	regHist := map[int]map[int32]bool{}
 	for r := 1; r < 32; r++ {
 		regHist[r] = map[int32]bool{ref.InitRegs[r]: true}
@@ -355,7 +366,16 @@ func explainFinal(p rProg, ref *refState, o *observation) string {
 	}
 	for r := 1; r < 32; r++ {
 		if o.Regs[r] != ref.Regs[r] && !regHist[r][o.Regs[r]] {
-			return "unexplained-final"
+			found := false
+			for _, v := range wrongPath[r] {
+				if v == o.Regs[r] {
+					found = true
+				}
+			}
+			if !found {
+				return "unexplained-final"
+			}
+			wp = true
 		}
 	}
 	for i := range ref.Mem {
@@ -366,5 +386,31 @@ func explainFinal(p rProg, ref *refState, o *observation) string {
 			}
 		}
 	}
+	if wp {
+		return "wrong-path-final"
+	}
 	return "stale-final"
+}
+
+// tickSiteName groups the tick sites by the loop that cannot end.
+func tickSiteName(site int) string {
+	switch site {
+	case 0, 5, 6:
+		return "main-loop"
+	case 1:
+		return "ret-drain"
+	case 2, 3:
+		return "flush-drain"
+	case 4:
+		return "final-drain"
+	}
+	return fmt.Sprintf("site-%d", site)
+}
+
+// frameFunc keeps the function name of a "func (file:line)" frame.
+func frameFunc(frame string) string {
+	if i := strings.Index(frame, " ("); i >= 0 {
+		return frame[:i]
+	}
+	return frame
 }
